@@ -17,6 +17,8 @@ META = {
     "note": "Trusted: TLC, the transcription of ISO 32000-1 in Syntax.tla/FileStructure.tla, the harness projection (wire.rs) including its "
             "exact-decimal f32 intervals. Inputs are sampled (seeded), not enumerated. Domain: distinct object numbers, max_id >= every "
             "number, finite reals, binary mark bytes >= 128, no objects typed XRef/ObjStm or carrying Linearized (save skips those).",
+    "bins": ['c01'],
+    "modules": ['Trace_Lifecycle.tla'],
     "design_ref": "DESIGN.md section 4 C01",
 }
 
